@@ -40,16 +40,28 @@ Proof.
   destruct x as [c|d]; cbn in Hx; [|discriminate]. apply N.eqb_eq in Hx. subst. reflexivity.
 Qed.
 
-Lemma e_remove_shape h sub w r w' :
-  TreeFacts w -> Inv04 w -> e_remove_sub_element T h sub w = Val (r, w') -> w' = w \/ removed w h sub w'.
+(* why a remove_sub_element call did nothing *)
+Definition remove_refused (w : world) (h sub : id) : Prop :=
+  h = sub \/ (exists e, model_of h w = Val (ER e, w)) \/
+  (exists n e, w_nodes w h = Some n /\ path_unchecked T n w = Val (ER e, w)) \/
+  ~ child_of w h sub \/
+  (exists n sn, w_nodes w h = Some n /\ w_nodes w sub = Some sn /\ named T (n_type n) = true /\ n_name sn = SHORTN).
+
+Lemma e_remove_shape2 h sub w r w' :
+  TreeFacts w -> Inv04 w -> e_remove_sub_element T h sub w = Val (r, w') ->
+  (w' = w /\ remove_refused w h sub) \/ removed w h sub w'.
 Proof.
   intros HF HI H. unfold e_remove_sub_element in H.
-  destruct (h =? sub) eqn:Ehs; [winv H; left; reflexivity|]. apply N.eqb_neq in Ehs.
-  wbind_ro H m Em; [|left; reflexivity]. unfold raw_remove_sub_element in H.
-  wnode H n Hn. wbind_ro H pp Epp; [|left; reflexivity].
-  destruct (index_of (citem_is sub) (n_content n)) as [pos|] eqn:Eidx; [|winv H; left; reflexivity].
+  destruct (h =? sub) eqn:Ehs; [winv H; left; split; [reflexivity|]; left; apply N.eqb_eq; exact Ehs|]. apply N.eqb_neq in Ehs.
+  wbind_ro H m Em; [|left; split; [reflexivity|]; right; left; eauto]. unfold raw_remove_sub_element in H.
+  wnode H n Hn. wbind_ro H pp Epp; [|left; split; [reflexivity|]; right; right; left; eauto].
+  destruct (index_of (citem_is sub) (n_content n)) as [pos|] eqn:Eidx.
+  2:{ winv H. left. split; [reflexivity|]. right. right. right. left. intros (n0 & Hn0 & Hc). rewrite Hn in Hn0. injection Hn0 as <-.
+      pose proof (index_of_none _ _ Eidx _ Hc) as Hf. cbn in Hf. rewrite N.eqb_refl in Hf. discriminate. }
   wval H nmd Hnmd. wnode H sn Hsn.
-  destruct (nmd && (n_name sn =? SHORT T)) eqn:Eshort; [winv H; left; reflexivity|].
+  destruct (nmd && (n_name sn =? SHORT T)) eqn:Eshort.
+  { winv H. left. split; [reflexivity|]. right. right. right. right. apply andb_true_iff in Eshort as (E1 & E2). subst nmd.
+    exists n, sn. split; [exact Hn|]. split; [exact Hsn|]. split; [apply (named_val _ _ _ Hnmd)|apply N.eqb_eq; exact E2]. }
   wgetw H.
   assert (Hreach : MReach T w m h) by (eapply model_of_mreach; eauto).
   assert (Hpp : SpecPath T w m h pp).
@@ -71,6 +83,26 @@ Proof.
   split.
   { intros j nj Hb Hnj. cbn. assert (j <> h) by (intros ->; contradiction). rewrite upd_neq by assumption. eapply Wi1; eauto. }
   split; [exact M1|]. split; [exact KS|]. split; [exact RS|]. cbn. exact N1.
+Qed.
+
+Lemma e_remove_shape h sub w r w' :
+  TreeFacts w -> Inv04 w -> e_remove_sub_element T h sub w = Val (r, w') -> w' = w \/ removed w h sub w'.
+Proof. intros HF HI H. destruct (e_remove_shape2 h sub w r w' HF HI H) as [(E & _)|Hr]; auto. Qed.
+
+(* a listed sub-element of a model root of a type that is not named is removed *)
+Lemma e_remove_root_child h sub w r w' n m :
+  TreeFacts w -> Inv04 w -> e_remove_sub_element T h sub w = Val (r, w') ->
+  w_nodes w h = Some n -> n_parent n = PModel m -> named T (n_type n) = false -> child_of w h sub -> removed w h sub w'.
+Proof.
+  intros HF HI H Hn Hp Hnn Hc. destruct (e_remove_shape2 h sub w r w' HF HI H) as [(_ & Hre)|Hr]; [exfalso|exact Hr].
+  destruct Hre as [E|[(e & Em)|[(n0 & e & Hn0 & Epp)|[Hnc|(n0 & sn & Hn0 & _ & Hnm & _)]]]].
+  - subst sub. eapply (not_below_self T w h h []); eauto. constructor.
+  - apply (model_of_val T) in Em as (_ & [(m0 & s0 & [=] & _)|(_ & Hd)]). inversion Hd as [|i0 n1 Hn1 Hd1]; subst.
+    rewrite Hn in Hn1. injection Hn1 as <-. rewrite Hp in Hd1. inversion Hd1.
+  - rewrite Hn in Hn0. injection Hn0 as <-. apply (path_unchecked_val T h n w _ _ Hn) in Epp as (_ & [(m0 & s0 & [=] & _)|(_ & Hd)]).
+    inversion Hd as [|i0 n1 Hn1 Hd1]; subst. rewrite Hn in Hn1. injection Hn1 as <-. rewrite Hp in Hd1. inversion Hd1.
+  - contradiction.
+  - rewrite Hn in Hn0. injection Hn0 as <-. congruence.
 Qed.
 
 (* ---------- lists *)
